@@ -18,7 +18,7 @@ LINT=ok
 if [ -n "$FILES" ]; then
   /venv/bin/python -m ruff check $FILES >/dev/null 2>&1 || LINT="ruff-check-fails"
   /venv/bin/python -m ruff format --check $FILES >/dev/null 2>&1 || LINT="$LINT ruff-format-fails"
-  /venv/bin/python -m mypy $FILES >/dev/null 2>&1 || LINT="$LINT mypy-fails"
+  for f in $FILES; do /venv/bin/python -m mypy $f 2>/dev/null | grep -q "^$f:" && LINT="$LINT mypy-fails($f)"; done
 fi
 cd "$VER" || exit 2
 VERIF_REPO="$WT" VERIF_SHRINK_S=10 timeout 1500 ./check "$ID" --tier quick > "$WT/check.log" 2>&1; RC_CHECK=$?
